@@ -595,14 +595,19 @@ PROPS["C19"] = dict(
 
 PROPS["C01"] = dict(
     lean_targets=["SJ.Props.C01", "SJ.Props.C01Iff", "SJ.Audit.C01"],
-    configs=dict(quick=["d", "ap"], thorough=["d", "ap", "fr", "po", "ud"]),
+    configs=dict(quick=["d", "ap", "rv"], thorough=["d", "ap", "rv", "fr", "po", "ud"]),
     gen_keys=["error.", "de."],
     rule=PARSE_RULE + " Accept/reject of the crate is compared with the model and with the independent recursive-descent "
          "recogniser + side conditions (Spec.Rec, Spec.Canon.sideConditions).",
     trusted_base=MACHINE_TB,
-    assumptions=["under arbitrary_precision / raw_value the Value visitor special-cases objects whose first key is the private "
-                 "Number/RawValue token; such inputs are outside the generators"],
-    partial=[],
+    assumptions=["the byte-step machine does not implement the private-token reading of objects that Value's visitor applies under "
+                 "arbitrary_precision / raw_value (an object whose first key decodes to $serde_json::private::Number / ::RawValue is "
+                 "read as a Number / re-parsed RawValue): c01_accepts_iff is a theorem about the machine, which treats such objects as "
+                 "RFC 8259 does; the crate deviates on exactly these objects — generated (tag private-token), reported by the "
+                 "specification (valid JSON rejected) and listed as open findings C01-ap-private-number-token, "
+                 "C01-rv-private-rawvalue-token"],
+    partial=["arbitrary_precision / raw_value: objects whose first key is a private token are outside the machine model (open findings; the model "
+             "sides with RFC 8259, the crate does not)"],
     technique="Lean 4 theorem c01_accepts_iff: the byte-step machine accepts exactly an inductive RFC 8259 grammar plus the stated side "
               "conditions (completeness by induction on derivations, soundness by a zipper invariant over every step) + "
               "exhaustive-token differential run against the crate and an independent recogniser",
@@ -626,7 +631,8 @@ PROPS["C02"] = dict(
          "is compared with the model and with the independent denotation Spec.Canon.canon of the recognised syntax tree.",
     trusted_base=MACHINE_TB,
     assumptions=["float values are whatever the configured conversion returns: their accuracy is C07/C08, not C02"],
-    partial=[],
+    partial=["arbitrary_precision: an object whose first key is the private Number token and whose only value is a string holding a number "
+             "is returned as that NUMBER (open finding C02-ap-private-number-token); the machine model returns the object the text denotes"],
     technique="Lean 4 theorems: objects built by sequential insertion = one entry per distinct key with the last value, sorted / "
               "first-occurrence order (mkObj = objectOf, both builds); the overflow! guard = mathematical comparison and integer "
               "classification of every digit string; completeness with value (C01) + value-level differential run",
